@@ -9,7 +9,8 @@ func (fm *provider) DownFlows() ([]reflect.Type, []reflect.Type) {
 	case unsetClassType:
 		// continue
 	default:
-		return fm.flows[inputParams].Types(), fm.flows[outputParams].Types()
+		// the placeholder that stands for a wrapper's inner() parameter is not a flow
+		return typeCodes(noNoType(fm.flows[inputParams])).Types(), typeCodes(noNoType(fm.flows[outputParams])).Types()
 	}
 	switch r := fm.fn.(type) {
 	case Reflective:
@@ -128,7 +129,7 @@ func (fm *provider) UpFlows() ([]reflect.Type, []reflect.Type) {
 	case unsetClassType:
 		// continue
 	default:
-		return fm.flows[receivedParams].Types(), fm.flows[returnParams].Types()
+		return typeCodes(noNoType(fm.flows[receivedParams])).Types(), typeCodes(noNoType(fm.flows[returnParams])).Types()
 	}
 	switch r := fm.fn.(type) {
 	case Reflective:
